@@ -5,7 +5,7 @@ From Coq Require Import List ZArith.
 Import ListNotations.
 From Gen Require Import SelGen.
 From Model Require Import Key Sel GFI GFIEdit Derived.
-From Proofs Require Import GFIBase GFIRef GFIWf GFIConsistent GFIProject GFISim GFIGen GFIEditProofs GFIEditChoices GFIDerived GFICombinators.
+From Proofs Require Import GFIBase GFIRef GFIWf GFIConsistent GFIProject GFISim GFIGen GFIEditProofs GFIEditChoices GFIDerived GFIDerived2 GFICombinators.
 Open Scope Z_scope.
 
 Theorem C13_switch_trace_is_the_branch : forall bs t,
@@ -47,6 +47,20 @@ Proof.
 Qed.
 Print Assumptions C13_or_else_is_if.
 
+(* mix (mixture.py): index ~ d(logits) at "mixture_component", the switch of the components at "component_sample";
+   the score is the index density of the component that ran plus that component's score, the return value and the
+   choices under "component_sample" are that component's *)
+Theorem C13_mix_is_index_plus_component : forall d bs t,
+  wft (g_mix d bs) t -> length (t_args t) = S (gfs_len bs) ->
+  exists p bargs idx sub a,
+    t_args t = VZ p :: bargs /\
+    nth_error bargs (clampZ idx (gfs_len bs)) = Some (VT a) /\
+    wf_branch bs (clampZ idx (gfs_len bs)) sub /\ t_args sub = a /\
+    t_score t = d_logpdf d idx p + t_score sub /\ t_retval t = t_retval sub /\
+    t_choices t = cprefix (map KS mix_component) [([], VZ idx)] ++ cprefix (map KS mix_sample) (t_choices sub).
+Proof. exact mix_is_index_plus_component. Qed.
+Print Assumptions C13_mix_is_index_plus_component.
+
 (* ---- non-vacuity: concrete non-trivial programs and traces meeting the hypotheses above (proofs/GFIWitness.v) ---- *)
 From Proofs Require Import GFIWitness.
 Example C13_hypotheses_met :
@@ -55,3 +69,7 @@ Example C13_hypotheses_met :
    wft (g_or_else (GDist 0) ex_kernel) t /\ length (t_choices t) = 1%nat).
 Proof. exact (conj ex_switch_wft ex_or_else_wft). Qed.
 Print Assumptions C13_hypotheses_met.
+Example C13_mix_hypotheses_met : let t := tr_of ex_mix ex_mix_a in
+  wft ex_mix t /\ length (t_args t) = S (gfs_len (GCons (GDist 1) (GCons ex_kernel GNil))) /\ length (t_choices t) = 2%nat.
+Proof. exact ex_mix_wft. Qed.
+Print Assumptions C13_mix_hypotheses_met.
